@@ -8,7 +8,8 @@ CONSTANTS
   MaxKeyBits = 24
   NFam = 8
   FamSIn = {4, 5}
-  BoundIdx = {1, 2, 3}
+  BoundIdx = {1, 3}
 INIT Init
 NEXT Next
+INVARIANT Emit
 CHECK_DEADLOCK FALSE
